@@ -30,7 +30,7 @@ def run_api(cfg: Dict[str, Any]) -> Dict[str, Any]:
     tag = f'native-api/{scen}/{mode}/w{w}'
     W = 2 * 64 + 16 if w == 64 else 80
     E = Engine(W, timeout_ms=240_000, max_paths=4000)
-    E.fast_ms = 4000
+    E.fast_ms = 1000
     module = env.load_module()
     mask = (1 << w) - 1
 
